@@ -689,10 +689,13 @@ def gen_utf32():
            "  recv : String\n  fn : String\n  shapeOk : Bool\n  startIncl : Nat → Nat\n  startExcl : Nat → Nat\n  startUnb : Nat → Nat\n  endIncl : Nat → Nat → Nat\n  endExcl : Nat → Nat → Nat\n  endUnb : Nat → Nat",
            "", "def sliceBoundsAll : List SliceBounds := ["]
     lines = []
+    def lam(params, body):
+        toks = body.split()
+        return "fun " + " ".join(p if p in toks else "_" for p in params) + " => " + body
     for recv, fn, ok, v in rows:
         lines.append(f'  {{ recv := "{recv}", fn := "{fn}", shapeOk := {"true" if ok else "false"},\n'
-                     f'    startIncl := fun x => {v[("start", "Included")]}, startExcl := fun x => {v[("start", "Excluded")]}, startUnb := fun n => {v[("start", "Unbounded")]},\n'
-                     f'    endIncl := fun x n => {v[("end", "Included")]}, endExcl := fun x n => {v[("end", "Excluded")]}, endUnb := fun n => {v[("end", "Unbounded")]} }}')
+                     f'    startIncl := {lam(["x"], v[("start", "Included")])}, startExcl := {lam(["x"], v[("start", "Excluded")])}, startUnb := {lam(["n"], v[("start", "Unbounded")])},\n'
+                     f'    endIncl := {lam(["x", "n"], v[("end", "Included")])}, endExcl := {lam(["x", "n"], v[("end", "Excluded")])}, endUnb := {lam(["n"], v[("end", "Unbounded")])} }}')
     out.append(",\n".join(lines))
     out += ["]", "", "end NucleoVerif.Gen"]
     return "\n".join(out) + "\n"
